@@ -674,6 +674,46 @@ def rule_r7_requested_files(ctx: Ctx) -> None:
         APath.FS = saved
 
 
+def rule_r8_normalize(ctx: Ctx) -> None:
+    """the one function every path-list argument of the entry points goes through, evaluated on every shape the signatures
+    admit (`None | Path | str | Iterable[Path | str]`): the result is the list of the paths given, first occurrences, in order
+    - whatever kind of iterable carries them (a list, a tuple, a one-shot iterator, a generator)"""
+    from ..absint import APath, Raised, call_fn, path_hook
+    from ..fold import Unfoldable
+
+    ctx.rule("C10.R8", "normalize_paths_argument_to_list: None -> []; one path or string -> [path]; any iterable of paths / strings (list, tuple, one-shot iterator) -> the paths in order of first occurrence, duplicates dropped; the caller's list is not modified", min_instances=1)
+    fn = ctx.func("_dsdl.normalize_paths_argument_to_list")
+    a, b, c = "/w/ns", "/w/other", "/w/third"
+    items = [APath(a), b, APath(b), a, APath(c), APath(a)]
+    want = [a, b, c]
+
+    def run(arg: Any) -> Any:
+        try:
+            r = call_fn(ctx, fn, [arg], hook=path_hook(None), keep=())
+        except Raised as ex:
+            return "raise " + ex.cls_name
+        except Unfoldable as ex:
+            raise AnalysisError("%s: cannot evaluate over abstract paths: %s" % (fn.short, ex))
+        return [str(x) for x in r] if isinstance(r, list) else repr(r)
+
+    caller_list = list(items)
+    cases = [
+        ("None", None, []), ("a path", APath(a), [a]), ("a string", a, [a]), ("an empty list", [], []),
+        ("a list", caller_list, want), ("a tuple", tuple(items), want), ("a one-shot iterator", iter(list(items)), want),
+        ("a generator", (x for x in list(items)), want), ("a list of strings", [a, b, a], [a, b]),
+        ("a list with a number", [APath(a), 5], "raise TypeError"),
+    ]
+    bad = []
+    for label, arg, w in cases:
+        got = run(arg)
+        ctx.count()
+        if got != w:
+            bad.append({"argument": label, "found": got, "expected": w})
+    if [str(x) for x in caller_list] != [str(x) for x in items] or len(caller_list) != len(items):
+        bad.append({"argument": "a list", "found": "the caller's list was modified: %r" % caller_list})
+    ctx.check(not bad, fn.short, "%d argument shapes" % len(cases), "the result depends on the paths given - not on the kind of iterable, on duplicates or on str / Path spelling", fn.where(), bad[:4])
+
+
 def run(ctx: Ctx) -> None:
     ctx.attempt(rule_r1, ctx)
     ctx.attempt(rule_r2, ctx)
@@ -682,6 +722,7 @@ def run(ctx: Ctx) -> None:
     ctx.attempt(rule_r5, ctx)
     ctx.attempt(rule_r6, ctx)
     ctx.attempt(rule_r7_requested_files, ctx)
+    ctx.attempt(rule_r8_normalize, ctx)
     ctx.assume("dict iteration order is insertion order (language guarantee), so dicts filled in a deterministic order are deterministic")
     ctx.assume("which of several simultaneous directory faults is reported first may depend on set order; the rejection itself does not")
     ctx.undecided("read_files == read_namespace type equality; case-insensitive file systems; symlink semantics of the OS; tie order of colliding (same name+version) lookup definitions")
